@@ -136,14 +136,23 @@ func cmdDump(args []string) int {
 	}
 	work := filepath.Join(verifDir, "work", "dump")
 	os.RemoveAll(work)
+	var results []*FuncResult
+	var allObls []*Obligation
 	for _, c := range cs {
-		t0 := time.Now()
 		r := verifyFunc(p, c, *prop)
+		results = append(results, r)
+		allObls = append(allObls, r.Obls...)
+	}
+	tAll := time.Now()
+	discharge(allObls, work, *tier, 8)
+	fmt.Printf("solved %d obligation instances in %.1fs\n", len(allObls), time.Since(tAll).Seconds())
+	for ci, c := range cs {
+		t0 := time.Now()
+		r := results[ci]
 		if r.Err != "" {
 			fmt.Printf("== %s: ERROR %s\n", c.Key, r.Err)
 			continue
 		}
-		discharge(r.Obls, work, *tier, 6)
 		fmt.Printf("== %s: %d paths, %d obligation instances, %.1fs\n", c.Key, r.Paths, len(r.Obls), time.Since(t0).Seconds())
 		agg := aggregate(r.Obls)
 		for _, a := range agg {
